@@ -3,5 +3,5 @@ CONSTANTS
   N = 2
   W = 3
   Rounding = "away"
-INVARIANTS RoundSound ClashSound PivotEliminated
+INVARIANTS RoundSound ClashSound PivotEliminated OpsAgree EmitOps
 CHECK_DEADLOCK FALSE
